@@ -66,7 +66,9 @@ Inductive op :=
 | AddColumn (t:N) (c:col)
 | CreateIndex (i t : N) (cols : list N)
 | DropIndex (i:N)
-| BulkInsert (t:N) (rows : list (list (option value)))   (* per column: None = key absent from the row dict *)
+| BulkInsert (t:N) (rows : list (list (option value)))   (* per column AND per row: None = key absent from that row's dict.
+     online multiinsert=True (executemany, one key set for all rows) and multiinsert=False (one INSERT per row, each
+     with its own keys) have the same effect as one INSERT per row, which is what compile_on produces *)
 | Execute (r:rawstmt).
 
 (* HeadMaintainer._insert_version / _delete_version / _update_version *)
